@@ -234,6 +234,87 @@ pub broadcast proof fn lemma_any_push(p: Seq<Rc<SemType>>, t: Rc<SemType>, n: in
     }
     if smem(t, v) { assert(q[p.len() as int] == t); }
 }
+// ---- the top of `mapping_indexed_access`: how the key set is read off the index type's string part
+// R22: the one-element slice pattern
+#[verifier::external_body]
+pub fn vsingle<T>(v: &Vec<T>) -> (r: Option<&T>)
+    ensures match r { Some(x) => v@.len() == 1 && *x == v@[0], None => v@.len() != 1 }
+{ match v.as_slice() { [x] => Some(x), _ => None } }
+// a string literal type that is one string constant
+pub open spec fn is_str_const(x: StringLitOrFormat) -> bool {
+    match x {
+        StringLitOrFormat::Tpl(t) => t.0@.len() == 1 && (t.0@[0] is StringConst),
+        StringLitOrFormat::Format(_) => false,
+    }
+}
+pub open spec fn str_const_of(x: StringLitOrFormat) -> String {
+    match x {
+        StringLitOrFormat::Tpl(t) => (match t.0@[0] { TplLitTypeItem::StringConst(s) => s, _ => arbitrary() }),
+        StringLitOrFormat::Format(_) => arbitrary(),
+    }
+}
+pub open spec fn consts_upto(values: Seq<StringLitOrFormat>, k: int) -> Seq<String>
+    decreases k
+{
+    if k <= 0 || k > values.len() { Seq::empty() } else {
+        if is_str_const(values[k - 1]) { consts_upto(values, k - 1).push(str_const_of(values[k - 1])) } else { consts_upto(values, k - 1) }
+    }
+}
+pub broadcast proof fn lemma_consts_step(values: Seq<StringLitOrFormat>, k: int)
+    requires 0 <= k < values.len()
+    ensures #[trigger] consts_upto(values, k + 1)
+        == (if is_str_const(values[k]) { consts_upto(values, k).push(str_const_of(values[k])) } else { consts_upto(values, k) })
+{}
+pub open spec fn all_consts_upto(values: Seq<StringLitOrFormat>, k: int) -> bool { forall|j: int| 0 <= j < k && j < values.len() ==> is_str_const(#[trigger] values[j]) }
+// the key set the string part of the index type stands for: every string; the listed / excluded constants when all
+// its literals are single string constants; none that this route can use (then the record route is taken) otherwise
+pub closed spec fn str_key_for(idx: SemType, key: Option<MappingStrKey>) -> bool {
+    if bit(idx.all, 8u32) { key == Some(MappingStrKey::True) } else {
+        (key is None && forall|i: int| 0 <= i < idx.subtype_data@.len() ==> ptag(*#[trigger] idx.subtype_data@[i]) != SubTypeTag::String)
+        || exists|i: int| 0 <= i < idx.subtype_data@.len() && (match *#[trigger] idx.subtype_data@[i] {
+            ProperSubtype::String { allowed, values } =>
+                if all_consts_upto(values@, values@.len() as int) {
+                    match key {
+                        Some(MappingStrKey::Str { allowed: a2, values: v2 }) => a2 == allowed && v2@ == consts_upto(values@, values@.len() as int),
+                        _ => false,
+                    }
+                } else { key is None },
+            _ => false,
+        })
+    }
+}
+pub open spec fn no_mapping_part(obj: SemType) -> bool {
+    !bit(obj.all, 32u32) && forall|i: int| 0 <= i < obj.subtype_data@.len() ==> ptag(*#[trigger] obj.subtype_data@[i]) != SubTypeTag::Mapping
+}
+pub open spec fn mapping_part(obj: SemType, b: Bdd) -> bool {
+    !bit(obj.all, 32u32) && exists|i: int| 0 <= i < obj.subtype_data@.len() && (match *#[trigger] obj.subtype_data@[i] {
+        ProperSubtype::Mapping(bb) => *bb == b,
+        _ => false,
+    })
+}
+pub open spec fn mapping_parts_ok(defs: Defs, t: SemType) -> bool {
+    forall|i: int| 0 <= i < t.subtype_data@.len() ==> match *#[trigger] t.subtype_data@[i] {
+        ProperSubtype::Mapping(b) => bdd_matoms_ok(defs, *b),
+        _ => true,
+    }
+}
+pub open spec fn mapping_parts_wf(defs: Defs, t: SemType) -> bool {
+    forall|i: int| 0 <= i < t.subtype_data@.len() ==> match *#[trigger] t.subtype_data@[i] {
+        ProperSubtype::Mapping(b) => bdd_matoms_wf(defs, *b),
+        _ => true,
+    }
+}
+// what `T[K]` is on the object part of T for a key set that the string-key route can use
+pub closed spec fn mapping_access_spec(defs: Defs, obj: SemType, key: Option<MappingStrKey>, r: SemType) -> bool {
+    if no_mapping_part(obj) { forall|v: Val| !#[trigger] mem(r, v) }
+    else {
+        exists|b: Bdd| #[trigger] mapping_part(obj, b) && (match key {
+            Some(sk) => forall|v: Val| #[trigger] mem(r, v) == mproj_mem(defs, b, sk, v),
+            None => true,
+        })
+    }
+}
+
 // value-level reading of the walk over an object diagram, as for lists
 spec fn matom_member(defs: Defs, a: Atom, key: MappingStrKey, v: Val) -> bool {
     sel_mem(mt_of(defs, a), key, v)
